@@ -56,7 +56,7 @@ ENGINE_STREAMS = {
     "C10": [("C01", 30, 1500, 40), ("faults", 30, 1500, 40), ("inner", 40, 1500, 40), ("mix", 40, 2000, 40)],
     "C11": [("cutoffs", 60, 3000, 40), ("midset", 50, 1500, 40), ("readd", 40, 1500, 30), ("cutfaults", 40, 1500, 40), ("mix", 40, 2000, 40)],
     "C12": [("midset", 40, 1500, 40), ("unobs", 30, 1500, 40), ("relink", 50, 1500, 34), ("mix", 40, 2000, 40)],
-    "C13": [("C01", 40, 1500, 40), ("midset", 30, 1500, 40), ("inner", 30, 1500, 40), ("faults", 30, 1500, 40), ("mix", 40, 2000, 40)],
+    "C13": [("C01", 40, 1500, 40), ("midset", 30, 1500, 40), ("inner", 30, 1500, 40), ("faults", 30, 1500, 40), ("mix", 40, 2000, 40), ("widekids", 20, 400, 90)],
 }
 
 
@@ -115,11 +115,11 @@ def run_kindtrace(ctx, K):
 def run_engine(ctx, K):
     if ctx.pid in ("C01", "C11"):
         run_kindtrace(ctx, K)
-    if ctx.pid in ("C01", "C02", "C03", "C05", "C06"):
+    if ctx.pid in ("C01", "C02", "C03", "C05", "C06", "C13"):
         # the >64-entry edge index sits under every wide node's dependents, inputs and observers: values (C01),
         # ordering (C02), missed runs (C03) and leaks (C06) all go through it
         run_C05_edgeindex(ctx, K)
-    if ctx.pid == "C12":
+    if ctx.pid in ("C12", "C03"):
         run_parscen(ctx, K)  # vars created inside bind scopes (queued above height 0) written from node functions
     run_engine_parallel(ctx, K)
     if ctx.pid == "C07":
@@ -346,6 +346,16 @@ PLANS_C16 = {"C16": dict(run=run_C16,
 # ------------------------------------------------------------------ C14, C15 (foldclock-builder), C17 (mapi-builder)
 
 def run_C14(ctx, K):
+    be = K.go_build(ctx, "incrtrace")
+    if be:
+        # MapN with inputs added and removed (also inputs that were computed before they were added): engine streams
+        for prof, ops in (("readd", "30"), ("fanout", "46")):
+            cases = os.path.join(ctx.rundir, "cases_C14_%s.v" % prof)
+            rep = K.run_tool(ctx, be, ["-prop", prof, "-claim", "C14", "-include", "C01,C05", "-n", str(tier_n(ctx, 300, 3000)), "-ops", ops,
+                                       "-coq", cases, "-coqmax", str(tier_n(ctx, 30, 600)), "-seed", str(ctx.seed)], "engine-" + prof)
+            if rep:
+                ctx.coq_cases += rep.get("coq_cases", 0)
+                K.run_cases(ctx, cases, "Engine.v~go-incr engine (%s stream)" % prof)
     run_kindtrace(ctx, K)  # ArrayFold / All / ForAll / Exists / MapN inside larger programs, under binds, both stabilizers
     run_C05_edgeindex(ctx, K)  # aggregates are the typical wide nodes: their input lists sit on the >64-entry edge index
     b = K.go_build(ctx, "foldtrace")
